@@ -31,6 +31,27 @@ CFG = {
         "Swat4.C11.C11_main",
         "Swat4.C11.C11_from",
         "Swat4.C11.driver_write_refines",
+        "Swat4.C11.relI_iff",
+        "Swat4.C11.relQ_iff",
+        "Swat4.C11.relQ_find",
+        "Swat4.C11.relI_unique",
+        "Swat4.C11.relIQ_empty",
+        "Swat4.C11.insAdd_refines",
+        "Swat4.C11.insRemove_refines",
+        "Swat4.C11.insGet_refines",
+        "Swat4.C11.insClear_refines",
+        "Swat4.C11.insClear_spec",
+        "Swat4.C11.insCount_refines",
+        "Swat4.C11.enqueue_refines",
+        "Swat4.C11.enqueue_dropped",
+        "Swat4.C11.zrange_eq_ready",
+        "Swat4.C11.popMany_refines_set",
+        "Swat4.C11.popMany_refines_perm",
+        "Swat4.C11.qCount_refines",
+        "Swat4.C11.C11_queue_step",
+        "Swat4.C11.C11_queue_main",
+        "Swat4.C11.C11_queue_from",
+        "Swat4.C11.C11_queue_no_hung",
     ],
     "shards": (4, 16),
     "nontrivial": _c11_nontrivial,
@@ -64,7 +85,13 @@ CFG = {
                 "without duplicates and up to order, exactly the records satisfying FilterSet.pred (all with-bits, no no-bit, refresh and "
                 "update time in half-open ranges, never-refreshed records fail every active bound); get_refines, count_refines, "
                 "countByStatus_refines; C11_main - by induction over any history of calls from the empty keyspace the model's results equal "
-                "the specification's item by item; driver_write_refines - the driver's own call runner (Drv.runCall) has this property for writes. The model is tied to the Go code by comparing every return value and the final keyspace "
+                "the specification's item by item; driver_write_refines - the driver's own call runner (Drv.runCall) has this property for writes. "
+                "The same is proved for the other two repositories via RelI (instances:items / updated vs AbsState.instances) and RelQ (probes:items / queue vs "
+                "AbsState.queue read as a finite map id -> item, nextId strictly above every stored id): insAdd_refines / insRemove_refines / insGet_refines / "
+                "insClear_refines (inclusive bound at both levels, HDEL reply = rows removed) / insCount_refines, enqueue_refines (incl. the dropped case), "
+                "popMany_refines_set (all rounds, within 2*ZCARD+1 commands, the returned probes as equal lists since both levels order by (ready, id), equal "
+                "expired count), qCount_refines, and C11_queue_main - by induction over any history of instance / queue calls from the empty keyspace the "
+                "machine's replies equal those of Call.exec on the specification state, which is what the use-case programs of C04, C05, C12-C16 run on. The model is tied to the Go code by comparing every return value and the final keyspace "
                 "of generated histories; the specification's results are also compared with the code's directly.",
         "level_note": "Proved: model refines specification, all states / records / filter sets / histories (sequential). Compared only "
                       "(finite): model = code and specification = code on generated histories. Trusted: Lean kernel; axioms propext, "
